@@ -66,6 +66,11 @@ func wideSpec(r *rng.R, variant int) []byte {
 		}
 		defs[letters[di]] = d
 	}
+	// an alias of an alias used as a property (the generator registers helper schemas in the shared document while it works)
+	defs["shortCode"] = map[string]interface{}{"type": "string", "maxLength": 3}
+	defs["codeAlias"] = map[string]interface{}{"$ref": "#/definitions/shortCode"}
+	defs["codeHolder"] = map[string]interface{}{"type": "object", "properties": map[string]interface{}{
+		"viaAlias": map[string]interface{}{"$ref": "#/definitions/codeAlias"}, "direct": map[string]interface{}{"$ref": "#/definitions/shortCode"}}}
 	scopes := map[string]interface{}{}
 	for i := 0; i < 9; i++ {
 		scopes[letters[i]+":"+letters[(i+3)%12]] = "scope " + letters[i]
@@ -194,7 +199,10 @@ func CheckC07(run *ev.Run) {
 		for _, k := range sortedKeysOf(defs) {
 			i++
 			dm := defs[k].(map[string]interface{})
-			props := dm["properties"].(map[string]interface{})
+			props, isObj := dm["properties"].(map[string]interface{})
+			if !isObj || len(props) < 3 { // the alias definitions stay as they are
+				continue
+			}
 			pk := sortedKeysOf(props)
 			switch i % 3 {
 			case 0:
@@ -379,6 +387,7 @@ func CheckC07(run *ev.Run) {
 			run.Sample(map[string]interface{}{"command": c.name, "runs": n, "distinct_outputs": len(digests), "files": len(first)})
 		}
 	}
+	c07Small(run, st, bin)
 	// schedules: concurrent generations through the library in ONE process, under the race detector
 	raceSpec := c08Spec([]c08op{{"get", "/a/{id}", "getA"}, {"post", "/a", "postA"}, {"put", "/b/{id}", "putB"}, {"delete", "/b/{id}", "delB"}}, []string{"alpha", "beta", "gamma"})
 	c07Race(run, st, raceSpec)
@@ -456,6 +465,97 @@ func c07Race(run *ev.Run, st map[string]int, spec []byte) {
 	} else {
 		st["concurrent-equals-sequential"]++
 		st["files-compared"] = len(trees[false])
+	}
+}
+
+// c07SmallSpecs: compact definition sets whose generation order matters only if the generator keeps state between definitions
+// (few definitions: each of the few possible orders is likely within a couple of dozen runs).
+var c07SmallSpecs = map[string]string{
+	"alias-of-alias": `{"swagger":"2.0","info":{"title":"t","version":"1"},"paths":{},"definitions":{"B1":{"type":"string","maxLength":3},"A1":{"$ref":"#/definitions/B1"},
+		"Obj":{"type":"object","properties":{"p":{"$ref":"#/definitions/A1"},"q":{"$ref":"#/definitions/B1"}}}}}`,
+	"alias-of-array-and-map": `{"swagger":"2.0","info":{"title":"t","version":"1"},"paths":{},"definitions":{"L":{"type":"array","items":{"type":"integer","minimum":1}},"LA":{"$ref":"#/definitions/L"},
+		"M":{"type":"object","additionalProperties":{"type":"string","minLength":2}},"MA":{"$ref":"#/definitions/M"},
+		"User":{"type":"object","properties":{"l":{"$ref":"#/definitions/LA"},"m":{"$ref":"#/definitions/MA"},"ll":{"type":"array","items":{"$ref":"#/definitions/LA"}}}}}}`,
+	"allOf-chain": `{"swagger":"2.0","info":{"title":"t","version":"1"},"paths":{},"definitions":{"Base":{"type":"object","required":["id"],"properties":{"id":{"type":"integer"}}},
+		"Mid":{"allOf":[{"$ref":"#/definitions/Base"},{"type":"object","properties":{"n":{"type":"string","maxLength":2}}}]},"MidAlias":{"$ref":"#/definitions/Mid"},
+		"Top":{"type":"object","properties":{"m":{"$ref":"#/definitions/MidAlias"},"ms":{"type":"object","additionalProperties":{"$ref":"#/definitions/MidAlias"}}}}}}`,
+}
+
+// c07Small runs `generate model` many times on each small spec and compares the trees.
+func c07Small(run *ev.Run, st map[string]int, bin string) {
+	runs := 24
+	if run.Tier == "thorough" {
+		runs = 96
+	}
+	names := []string{}
+	for k := range c07SmallSpecs {
+		names = append(names, k)
+	}
+	sort.Strings(names)
+	for _, name := range names {
+		root, err := ScratchRoot("c07s")
+		if err != nil {
+			return
+		}
+		type res struct {
+			dg   string
+			tree map[string]string
+			dir  string
+			code int
+		}
+		out := make([]res, runs)
+		var wg sync.WaitGroup
+		sem := make(chan struct{}, 12)
+		for k := 0; k < runs; k++ {
+			wg.Add(1)
+			go func(k int) {
+				defer wg.Done()
+				sem <- struct{}{}
+				defer func() { <-sem }()
+				sub := filepath.Join(root, fmt.Sprintf("r%d", k))
+				_ = os.MkdirAll(filepath.Join(sub, "target"), 0o755)
+				_ = InitModule(sub, "x")
+				_ = os.WriteFile(filepath.Join(sub, "s.json"), []byte(c07SmallSpecs[name]), 0o644)
+				r := Run(sub, 120*time.Second, bin, "generate", "model", "-f", "s.json", "-t", "target")
+				dg, tree := treeDigest(filepath.Join(sub, "target"))
+				out[k] = res{dg: dg, tree: tree, dir: sub, code: r.Code}
+			}(k)
+		}
+		wg.Wait()
+		digests := map[string]int{}
+		other := -1
+		for k := range out {
+			run.Traces++
+			if out[k].code != 0 {
+				st["small-spec-generation-fails:"+name]++
+				continue
+			}
+			digests[out[k].dg]++
+			if out[k].dg != out[0].dg && other < 0 {
+				other = k
+			}
+		}
+		run.Case("small:" + name)
+		if len(digests) > 1 && other >= 0 {
+			st["UNSTABLE:small:"+name]++
+			file := "(file set differs)"
+			var la, lb string
+			for _, f := range SortedKeys(out[other].tree) {
+				if out[0].tree[f] != out[other].tree[f] {
+					file = f
+					ba, _ := os.ReadFile(filepath.Join(out[0].dir, "target", f))
+					bb, _ := os.ReadFile(filepath.Join(out[other].dir, "target", f))
+					la, lb = firstDiffLines(string(ba), string(bb))
+					break
+				}
+			}
+			run.Deviation("unstable:generate model:small-spec:"+name, fmt.Sprintf("%d runs of `swagger generate model` on the %s spec gave %d different outputs (first differing file %s: %q vs %q)", runs, name, len(digests), file, clip(la, 120), clip(lb, 120)),
+				map[string]interface{}{"spec": json.RawMessage(c07SmallSpecs[name]), "runs": runs, "distinct_outputs": len(digests), "first_differing_file": file, "line_in_one_run": la, "line_in_another_run": lb,
+					"how": "swagger generate model -f spec.json -t target, repeatedly into an emptied target; compare the trees"})
+		} else {
+			st["stable:small:"+name]++
+		}
+		_ = os.RemoveAll(root)
 	}
 }
 
